@@ -2,8 +2,10 @@
 
 proof  : lean/Pyunicorn/Properties/C05.lean about lean/Pyunicorn/Model/Repr.lean
          (adjacency setter, set_edge_list, node-weight setter, copy, FromIGraph,
-         save/Load, link attributes) and about the definitions gen_arith
-         regenerates from the adjacency setter (n_links, link_density)
+         save/Load incl. save's side effect on the graph object, link attributes,
+         histories of statements on one live object) and about the definitions
+         gen_arith regenerates from the adjacency setter and set_edge_list
+         (n_links, link_density, inferred node count)
 tie    : gen_arith (translate/arith_C05.json) + exact correspondence of the Lean
          model with Network / SpatialNetwork / GeoNetwork objects built through
          every constructor path and post-processing operation
@@ -131,6 +133,7 @@ class Case:
         self.zeros = False        # sparse matrix with explicitly stored zeros
         self.edtype = "int"       # dtype of an ndarray edge list
         self.autofmt = False      # save / Load with fileformat=None (detected from the extension)
+        self.poke = False         # overwrite the caller's arrays afterwards and observe again
         self.__dict__.update(kw)
 
     def label(self):
@@ -395,7 +398,7 @@ class Impl:
                     net = self.apply(net, op, c)
                 o = observe(net)
                 self.poked = None
-                if c.ctor != "igraph" and self.poke():
+                if c.poke and c.ctor != "igraph" and self.poke():
                     # the network must not depend on arrays the caller still holds
                     self.poked = observe(net)
         except Exception as e:  # noqa
@@ -708,7 +711,7 @@ def cases_for(rng, N, directed, edges, quick, rich):
         # weights and attribute matrices (does not change the specified network)
         var = dict(adtype=rng.choice(["int", "int", "bool", "int8", "uint8", "int64", "f32", "f64"]),
                    wform=rng.choice(["list", "f64", "f32"]), vform=rng.choice(["f64", "f64", "f32"]),
-                   autofmt=rng.random() < 0.25)
+                   autofmt=rng.random() < 0.25, poke=rng.random() < (1.0 if quick else 0.3))
         out.append(Case(**{**base, "edges": spec_edges, **var, **kw}))
 
     dense = dict(ctor="dense", shape=(N, N), A=A)
@@ -831,13 +834,17 @@ def run(ctx):
                 "(empty / single link / sparse / half / dense / complete / with isolated nodes) on "
                 "up to %d nodes, each through dense list, ndarray, scipy csc/csr/coo/lil/dok, edge "
                 "lists (one / other / mixed / both orientations, repeated entries, n_nodes given or "
-                "inferred), igraph object, copy, undirected_copy, edge_list() round trip, "
-                "save->Load in graphml/graphmlz/pickle/gml, Network / SpatialNetwork / GeoNetwork; "
+                "inferred), sparse matrices with stored zeros, igraph object, copy, undirected_copy, "
+                "permuted_copy(identity), edge_list() round trip, save->Load in "
+                "graphml/graphmlz/pickle/gml (format given or detected), histories of 2-8 statements "
+                "on one live object (reassign weights / attribute / adjacency, save, load, copy, "
+                "FromIGraph(net.graph)), caller arrays of several dtypes and float widths, "
+                "power-of-two rescalings, Network / SpatialNetwork / GeoNetwork; "
                 "distinct = distinct request line; non-trivial = at least 2 nodes and one link"
                 % ((3, 12) if quick else (4, 30)))
     ctx.assumptions.append(
         "igraph's graphml / graphmlz / pickle readers return the graph that was written "
-        "(vertex and edge attributes included): hypothesis `hstore` of theorem saveLoad_id, "
+        "(vertex and edge attributes included): hypothesis `hstore` of theorems saveLoad_ofGraph / statement_spec / history_spec / saveLoad_coherent, "
         "exercised by the save->Load correspondence")
     ctx.proofs()
     tmp = tempfile.mkdtemp(prefix="C05-")
@@ -851,7 +858,7 @@ def run(ctx):
                     gs = rng.sample(gs, 64 if quick else 400)
                 specs += [(N, d, g, N <= 2 or rng.random() < (0.15 if quick else 0.3)) for g in gs]
         kinds = ["empty", "single", "sparse", "half", "dense", "full", "isolated"]
-        for _ in range(110 if quick else 1500):
+        for _ in range(110 if quick else 1000):
             N = rng.randrange(2, 13 if quick else 31)
             d = rng.random() < 0.5
             specs.append((N, d, random_graph(rng, N, d, rng.choice(kinds)),
